@@ -13,7 +13,7 @@ def bool_field_tests(f, field):
         if t["k"] != "switch" or t["d"]["k"] not in ("copy", "move"):
             continue
         src = operand_sources(f, t["d"], follow=True)
-        if src and all(x[0] in ("place", "arg") and x[2][-1:] == (field,) for x in src):
+        if src and all(len(x) == 3 and x[0] in ("place", "arg", "call") and x[2][-1:] == (field,) for x in src):
             su, fa = switch_edges(f, b, 1)
             out.append(Test(b, su, fa, 0, "bool", False, None))
     return out
